@@ -522,7 +522,17 @@ ledger_add (void *p, size_t n, int kind)
 {
   if (vh_nledger == 512)
     return;
-  vh_ledger[vh_nledger++] = (struct vh_blk) { p, n, kind, 1, vh_seam_armed };
+  vh_ledger[vh_nledger++] = (struct vh_blk) { p, n, kind, 1, vh_seam_armed, 0 };
+}
+
+void *
+vh_inplace_alloc (size_t n, size_t cap)
+{
+  void *p = vh_guard_alloc (cap);
+  if (vh_nledger == 512)
+    vh_internal ("ledger full");
+  vh_ledger[vh_nledger++] = (struct vh_blk) { p, n, 'm', 1, 1, cap };
+  return p;
 }
 
 /* returns 1 when this request must fail */
@@ -706,7 +716,13 @@ realloc (void *old, size_t n)
         vh_bad_free++;
       if (b && vh_on_release)
         vh_on_release (old, b->n, 'r');
-      /* always move, so stale pointers are caught and contents rules are visible */
+      if (b && b->cap && n <= b->cap)
+        {
+          /* the heap had room behind the block: same address, the added bytes hold whatever was there before */
+          b->n = n;
+          return old;
+        }
+      /* otherwise always move, so stale pointers are caught and contents rules are visible */
       void *p = armed_alloc (n);
       if (!p)
         return 0;
@@ -719,7 +735,7 @@ realloc (void *old, size_t n)
           if (b)
             {
               b->live = 0;
-              vh_guard_free (old, b->n ? b->n : 1);        /* the old block disappears: a stale pointer faults */
+              vh_guard_free (old, b->cap ? b->cap : b->n ? b->n : 1);        /* the old block disappears: a stale pointer faults */
             }
           else
             __libc_free (old);
@@ -747,7 +763,7 @@ free (void *p)
       if (vh_on_release)
         vh_on_release (p, b->n, 'f');
       b->live = 0;
-      vh_guard_free (p, b->n ? b->n : 1);          /* every ledger block of kind 'm' was made by armed_alloc */
+      vh_guard_free (p, b->cap ? b->cap : b->n ? b->n : 1);          /* every ledger block of kind 'm' was made by armed_alloc */
       return;
     }
   /* a block that left the ledger (ledger reset between cases) but was guard-allocated cannot be told apart from a libc
